@@ -142,10 +142,22 @@ def gen_tables():
         return {"error": out[-500:]}
 
 
+HARNESS_MODE = "full"
+
+
 def harness_build():
+    """full harness; if it does not compile against the tree under test (the Cache trait changed under the wrappers the
+    policy / sched suites need), a reduced one without them: the other suites can still look for a failing input"""
+    global HARNESS_MODE
     with build_lock():
         link_repo()
         rc, out = sh(["cargo", "build", "--offline"], cwd=HARNESS, timeout=3000)
+        HARNESS_MODE = "full"
+        if rc != 0:
+            rc2, out2 = sh(["cargo", "build", "--offline", "--no-default-features"], cwd=HARNESS, timeout=3000)
+            if rc2 == 0:
+                HARNESS_MODE = "reduced"
+                return True, out
     return rc == 0, out
 
 
